@@ -1,3 +1,4 @@
+import Pds.Proofs.KernelTie.CtorCuckoo
 import Pds.Proofs.KernelTie.BloomOps
 import Pds.Proofs.KernelTie.QfOps
 import Pds.Proofs.KernelTie.Cuckoo
@@ -60,5 +61,11 @@ theorem qf_insert_internal_translated {N : Nat} (t : Quotient.St N) (q : Fin N) 
       match Quotient.insertInternal t q r with
       | none => Flow.panic
       | some (t', res) => Flow.ret (qfRes res, (occL t', contL t', shiftL t', remL t', t'.n)) := qf_insert_internal_eq t q r
+
+/-- the constructor guard: the model's `new` accepts exactly what the translated `with_params_and_hash` accepts (and the
+packed table can be allocated for) -/
+theorem cuckoo_with_params_translated {R : Type} (rng : R) (bs nb lf : Nat) :
+    (Cuckoo.new rng bs nb lf).isSome ↔ (cuckoo_with_params bs nb lf = Flow.ret (nb * bs) ∧ lf * (nb * bs) < 2 ^ 64) :=
+  cuckoo_with_params_eq rng bs nb lf
 
 end Pds.Tie.C01
